@@ -124,6 +124,10 @@ func (d *Describer) Classify(v ssa.Value) *CondInfo {
 			return invert(d.Classify(v.X))
 		}
 	case *ssa.BinOp:
+		// a.Compare(b) <op> 0 is the ordering of the instants a and b
+		if ci := d.compareAtom(v); ci != nil {
+			return ci
+		}
 		switch v.Op {
 		case token.EQL, token.NEQ:
 			x, y := v.X, v.Y
@@ -177,6 +181,53 @@ func (d *Describer) Classify(v ssa.Value) *CondInfo {
 		}
 	}
 	return &CondInfo{Key: d.D(v), Kind: "bool", True: map[string]bool{"T": true}}
+}
+
+// compareAtom recognises  t.Compare(u) <op> 0  (and  0 <op> t.Compare(u))  for
+// time.Time: the same ordering atom as t.Before(u) / t.After(u) / t.Equal(u).
+func (d *Describer) compareAtom(v *ssa.BinOp) *CondInfo {
+	call, isCall := v.X.(*ssa.Call)
+	zero := v.Y
+	op := v.Op
+	if !isCall {
+		call, isCall = v.Y.(*ssa.Call)
+		zero = v.X
+		switch op { // mirror
+		case token.LSS:
+			op = token.GTR
+		case token.LEQ:
+			op = token.GEQ
+		case token.GTR:
+			op = token.LSS
+		case token.GEQ:
+			op = token.LEQ
+		}
+	}
+	if !isCall || !isConstInt(zero, 0) {
+		return nil
+	}
+	f := call.Call.StaticCallee()
+	if f == nil || FuncName(f) != "(time.Time).Compare" || len(call.Call.Args) != 2 {
+		return nil
+	}
+	var tr map[string]bool
+	switch op {
+	case token.LSS:
+		tr = map[string]bool{"<": true}
+	case token.LEQ:
+		tr = map[string]bool{"<": true, "=": true}
+	case token.GTR:
+		tr = map[string]bool{">": true}
+	case token.GEQ:
+		tr = map[string]bool{">": true, "=": true}
+	case token.EQL:
+		tr = map[string]bool{"=": true}
+	case token.NEQ:
+		tr = map[string]bool{"<": true, ">": true}
+	default:
+		return nil
+	}
+	return ordAtom(d.D(call.Call.Args[0]), d.D(call.Call.Args[1]), tr)
 }
 
 // feasibleDomain returns the domain values an atom can take at all: len(X) and
